@@ -1,12 +1,6 @@
-#![allow(dead_code, unused_imports, unexpected_cfgs)]
+#![allow(dead_code, unused_imports, unexpected_cfgs, static_mut_refs)]
 #[cfg(kani)]
-pub mod rec;
-#[cfg(kani)]
-pub mod stubs;
-#[cfg(kani)]
-pub mod c19;
-#[cfg(kani)]
-pub mod c15;
+pub mod c11;
 
 // written by /verif/check into a scratch copy of this crate when a counterexample is replayed natively
 #[cfg(all(kani, verif_playback))]
